@@ -308,10 +308,9 @@ func (tp *TableParser) parseCellParagraph(p paragraphXML) parsedParagraph {
 	// Extract text from runs
 	var textParts []string
 	for _, run := range p.Runs {
-		for _, child := range run.Content {
-			if child.XMLName.Local == "t" {
-				textParts = append(textParts, child.Value)
-			}
+		// Same extraction as for body paragraphs: text, tabs, breaks, symbols
+		if text := runText(run); text != "" {
+			textParts = append(textParts, text)
 		}
 	}
 	parsed.Text = strings.Join(textParts, "")
